@@ -180,7 +180,7 @@ class Ctx:
 def pool_map(fn, items, procs=None, chunksize=1):
     """Run fn over items in worker processes (fork), preserving order."""
     import multiprocessing as mp
-    procs = procs or min(16, os.cpu_count() or 1)
+    procs = procs or int(os.environ.get("VERIF_PROCS", "0") or 0) or min(16, os.cpu_count() or 1)
     if procs <= 1 or len(items) <= 1:
         return [fn(x) for x in items]
     ctx = mp.get_context("fork")
